@@ -198,6 +198,13 @@ theorem eq_asg : ∀ (n : Nat) (a b : Ty), a.w + b.w ≤ n → Ty.WF cfg a → T
       simp only [Ty.w] at hw
       obtain ⟨h1, h2⟩ := ih t t' (by omega) wa wb na nb h
       exact ⟨mono_sensitive cfg sfh t t' h1, mono_sensitive cfg sfh t' t h2⟩
+    | iterator t =>
+      cases b <;> simp only [] at h <;> (first | contradiction | skip)
+      rename_i t'
+      unfold Ty.WF at wa wb; unfold Ty.NoAlias at na nb
+      simp only [Ty.w] at hw
+      obtain ⟨h1, h2⟩ := ih t t' (by omega) wa wb na nb h
+      exact ⟨mono_iterator cfg sfh t t' h1, mono_iterator cfg sfh t' t h2⟩
     | iterable t =>
       cases b <;> simp only [] at h <;> (first | contradiction | skip)
       rename_i t'
